@@ -182,9 +182,11 @@ class Source:
             if j < 0 or j >= hi:
                 continue
             cb = match_brace(self.text, self.code, j)
-            # attributes / visibility before fn (for the record only)
+            # visibility before fn is kept (attributes are dropped)
+            mvis = re.search(r'(pub(?:\([a-z]+\))?\s+)$', self.text[max(0, s - 16):s])
+            vis = mvis.group(1) if mvis else ''
             return {
-                'sig': self.text[s:j].rstrip(),
+                'sig': vis + self.text[s:j].rstrip(),
                 'body': self.text[j + 1:cb],
                 'start': s, 'end': cb,
                 'line0': self.line_of(s), 'line1': self.line_of(cb),
